@@ -2,7 +2,7 @@
 import z3
 from pyvc import vals
 from pyvc.vals import V, Node
-from .speclib import REG, Contract
+from .speclib import REG, Contract, NODE_T
 
 M_RULE = "pytestarch.query_language.rule"
 M_P2R = "pytestarch.utils.partial_match_to_regex_converter"
@@ -30,7 +30,7 @@ def _name_anc(eng, st, a, b):
 
 @REG.specfun("glob2regex")
 def _glob2regex(eng, st, a):
-    return V(("node",), _f_glob2regex(a.x))
+    return V(NODE_T, _f_glob2regex(a.x))
 
 
 REG.add(Contract("convert_partial_match_to_regex@node", module=M_P2R, qualname="convert_partial_match_to_regex",
